@@ -17,6 +17,7 @@ import z3
 
 _UNSET = object()
 IMP_CAP = 64
+USE_IMP = False  # switched on by Engine B (no solver pruning while the formula is built)
 _intern: dict = {}
 _counter = itertools.count(1)
 
@@ -337,6 +338,8 @@ def AND(*xs) -> B:
                 items.pop(d)
             if len(items) == 1:
                 return next(iter(items.values()))
+    if not USE_IMP:
+        return _mk("a", items.values())
     # implied-assignment summaries refute conjunctions that are contradictory behind definitional variables
     acc = {}
     for x in items.values():
